@@ -10,7 +10,7 @@ FAMS_QUICK = ["rw", "nest", "plain", "rec", "strictx", "alias"]
 # tier -> per family TLC constants
 TIERS = {
     "quick": dict(sample=40, dmax=7, widths="W_2", nwid=2, ords=2, strict="{FALSE, TRUE}"),
-    "thorough": dict(sample=0, dmax=8, widths="W_4", nwid=4, ords=4, strict="{FALSE, TRUE}"),
+    "thorough": dict(sample=0, dmax=8, widths="W_3", nwid=3, ords=2, strict="{FALSE, TRUE}"),
 }
 
 
@@ -115,7 +115,7 @@ def c01(tier):
     defs, groups = oracle(tier, FAMS_QUICK, ck)
     dmax = p["dmax"]
     rdepths = list(range(1, dmax + 1))
-    scheds = 2 if tier == "quick" else 5
+    scheds = 2 if tier == "quick" else 3
     res = run_plain(binary, defs, groups, dmax, rdepths, scheds=scheds)
     drift = 0
     nb_cases = 0
